@@ -179,9 +179,9 @@ class Interp:
             return z3.BoolVal(True)
         st = self.st
         ref = Val.ref(v)
-        cls = z3.Select(self.heap.get('cls'), ref)
-        objt = z3.If(z3.Or(cls == V.LIST_CID, cls == V.SET_CID), z3.Length(z3.Select(self.heap.get('list'), ref)) > 0,
-                     z3.If(cls == V.DICT_CID, z3.Length(z3.Select(self.heap.get('dkeys'), ref)) > 0,
+        cls = self.st.sel(self.heap.get('cls'), ref)
+        objt = z3.If(z3.Or(cls == V.LIST_CID, cls == V.SET_CID), z3.Length(self.st.sel(self.heap.get('list'), ref)) > 0,
+                     z3.If(cls == V.DICT_CID, z3.Length(self.st.sel(self.heap.get('dkeys'), ref)) > 0,
                            self.instance_truth(v, cls)))
         return z3.If(Val.is_b(v), Val.bv(v),
                      z3.If(Val.is_none(v), z3.BoolVal(False),
@@ -452,9 +452,9 @@ class Interp:
         xv = self.to_val(x)
         st = self.st
         ref = Val.ref(cont)
-        cls = z3.Select(self.heap.get('cls'), ref)
-        in_seq = z3.Contains(z3.Select(self.heap.get('list'), ref), z3.Unit(xv))
-        in_dict = z3.Select(z3.Select(self.heap.get('dmap'), ref), xv) != V.ABSENT
+        cls = self.st.sel(self.heap.get('cls'), ref)
+        in_seq = z3.Contains(self.st.sel(self.heap.get('list'), ref), z3.Unit(xv))
+        in_dict = z3.Select(self.st.sel(self.heap.get('dmap'), ref), xv) != V.ABSENT
         in_tuple = z3.Contains(Val.tv(cont), z3.Unit(xv))
         in_str = z3.Contains(Val.sv(cont), Val.sv(xv))
         if not self.pure:
@@ -567,7 +567,7 @@ class Interp:
         base = self.to_val(base)
         if self.pure:
             if name == '__class__':
-                return Val.c(z3.Select(self.heap.get('cls'), Val.ref(base)))
+                return Val.c(self.st.sel(self.heap.get('cls'), Val.ref(base)))
             return self.attr_term(Val.ref(base), name)
         st = self.st
         if not st.branch(Val.is_o(base)):
@@ -588,10 +588,17 @@ class Interp:
         else what the class chain provides (A-attr).  Class constants declared in the sidecar are
         read from the live class for every subclass (A-classconst)."""
         h = heap or self.heap
-        v = z3.Select(h.get(('attr', name)), ref)
+        v = self.st.sel(h.get(('attr', name)), ref)
+        for pycls, sf in self.reg.property_get.get(name, []):
+            # a read-only view of a property: its getter as a specification function
+            cls = self.st.sel(h.get('cls'), ref)
+            sub = self.sub(pure=True)
+            sub.heap_override = heap if heap is not None else self.heap_override
+            pv = sub.to_val(sub.call_spec(sf, [Val.o(ref)], {}))
+            v = z3.If(V.subclass(cls, z3.IntVal(V.cid_of(pycls))), pv, v)
         for pycls, value in self.reg.class_consts.get(name, []):
             self.st.assumptions.add('A-classconst: subclasses of %s do not override %s' % (pycls.__name__, name))
-            cls = z3.Select(h.get('cls'), ref)
+            cls = self.st.sel(h.get('cls'), ref)
             v = z3.If(V.subclass(cls, z3.IntVal(V.cid_of(pycls))), lit(value), v)
         return v
 
@@ -619,7 +626,7 @@ class Interp:
             elif not self.pure and self.st.branch(z3.And(Val.is_o(base), self.st.cls_of(Val.ref(base)) == V.LIST_CID)):
                 seq, wrap = self.st.items(Val.ref(base)), lambda s: self.st.new_list(s)
             elif self.pure:
-                seq, wrap = z3.Select(self.heap.get('list'), Val.ref(base)), lambda s: SeqV(s)
+                seq, wrap = self.st.sel(self.heap.get('list'), Val.ref(base)), lambda s: SeqV(s)
             else:
                 raise Unsupported('slice of a non-sequence')
         n = z3.Length(seq)
@@ -681,13 +688,13 @@ class Interp:
                 return z3.simplify(tv[k])
         if self.pure:
             ref = Val.ref(base)
-            cls = z3.Select(self.heap.get('cls'), ref)
+            cls = self.st.sel(self.heap.get('cls'), ref)
             k = num_int(idx)
-            lst = z3.Select(self.heap.get('list'), ref)
+            lst = self.st.sel(self.heap.get('list'), ref)
             tv = Val.tv(base)
             return z3.If(Val.is_t(base), tv[z3.If(k < 0, k + z3.Length(tv), k)],
                          z3.If(Val.is_s(base), Val.s(z3.SubString(Val.sv(base), z3.If(k < 0, k + z3.Length(Val.sv(base)), k), 1)),
-                               z3.If(cls == V.DICT_CID, z3.Select(z3.Select(self.heap.get('dmap'), ref), idx),
+                               z3.If(cls == V.DICT_CID, z3.Select(self.st.sel(self.heap.get('dmap'), ref), idx),
                                      lst[z3.If(k < 0, k + z3.Length(lst), k)])))
         if st.branch(Val.is_o(base)):
             ref = Val.ref(base)
@@ -872,7 +879,7 @@ class Interp:
             s = Val.tv(v)
             return IterV(z3.Length(s), lambda k: s[k], 'tuple', seq=s)
         if self.pure:
-            s = z3.Select(self.heap.get('list'), Val.ref(v))
+            s = self.st.sel(self.heap.get('list'), Val.ref(v))
             return IterV(z3.Length(s), lambda k: s[k], 'list', seq=s)
         if st.branch(Val.is_o(v)):
             ref = Val.ref(v)
@@ -1034,7 +1041,7 @@ class Interp:
         if name in STR_METHODS and name not in ('count', 'copy'):
             return self.str_method(Val.sv(recv), name, args, kwargs)
         if name == 'get':
-            amap = z3.Select(self.heap.get('dmap'), Val.ref(recv))
+            amap = self.st.sel(self.heap.get('dmap'), Val.ref(recv))
             v = z3.Select(amap, self.to_val(args[0]))
             d = self.to_val(args[1]) if len(args) > 1 else V.NONE
             return z3.If(v == V.ABSENT, d, v)
@@ -1100,6 +1107,10 @@ class Interp:
             return Val.b(z3.SuffixOf(Val.sv(av[0]), s))
         if name == 'join' and len(args) == 1:
             it = args[0]
+            if V.is_val(it) and z3.is_string_value(z3.simplify(s)) and z3.simplify(s).as_string() == '':
+                iv = self.to_val(it)
+                if V.tagname(iv) == 's' or (V.tagname(iv) is None and not self.pure and self.st.branch(Val.is_s(iv))):
+                    return iv          # ''.join(text) is the text itself
             if isinstance(it, SeqV) or True:
                 seq = it.seq if isinstance(it, SeqV) else self.seq_of_value(it)
                 self.st.assumptions.add('A-str: str.join over a symbolic sequence is the uninterpreted fold `str_join`')
@@ -1121,7 +1132,7 @@ class Interp:
         if tag == 't':
             return Val.tv(v)
         if self.pure:
-            return z3.If(Val.is_t(v), Val.tv(v), z3.Select(self.heap.get('list'), Val.ref(v)))
+            return z3.If(Val.is_t(v), Val.tv(v), self.st.sel(self.heap.get('list'), Val.ref(v)))
         if self.st.branch(Val.is_t(v)):
             return Val.tv(v)
         if self.st.branch(z3.And(Val.is_o(v), z3.Or(self.st.cls_of(Val.ref(v)) == V.LIST_CID,
@@ -1339,15 +1350,15 @@ class Interp:
 
     def spec_items(self, node):
         v = self.to_val(self.ev(node.args[0]))
-        return SeqV(z3.Select(self.heap.get('list'), Val.ref(v)))
+        return SeqV(self.st.sel(self.heap.get('list'), Val.ref(v)))
 
     def spec_keys(self, node):
         v = self.to_val(self.ev(node.args[0]))
-        return SeqV(z3.Select(self.heap.get('dkeys'), Val.ref(v)))
+        return SeqV(self.st.sel(self.heap.get('dkeys'), Val.ref(v)))
 
     def spec_mapping(self, node):
         v = self.to_val(self.ev(node.args[0]))
-        return MapV(z3.Select(self.heap.get('dmap'), Val.ref(v)))
+        return MapV(self.st.sel(self.heap.get('dmap'), Val.ref(v)))
 
     def spec_tuple_items(self, node):
         v = self.to_val(self.ev(node.args[0]))
@@ -1380,28 +1391,28 @@ class Interp:
 
     def spec_is_list(self, node):
         v = self.to_val(self.ev(node.args[0]))
-        return Val.b(z3.And(Val.is_o(v), z3.Select(self.heap.get('cls'), Val.ref(v)) == V.LIST_CID))
+        return Val.b(z3.And(Val.is_o(v), self.st.sel(self.heap.get('cls'), Val.ref(v)) == V.LIST_CID))
 
     def spec_is_dict(self, node):
         v = self.to_val(self.ev(node.args[0]))
-        return Val.b(z3.And(Val.is_o(v), z3.Select(self.heap.get('cls'), Val.ref(v)) == V.DICT_CID))
+        return Val.b(z3.And(Val.is_o(v), self.st.sel(self.heap.get('cls'), Val.ref(v)) == V.DICT_CID))
 
     def spec_is_set(self, node):
         v = self.to_val(self.ev(node.args[0]))
-        return Val.b(z3.And(Val.is_o(v), z3.Select(self.heap.get('cls'), Val.ref(v)) == V.SET_CID))
+        return Val.b(z3.And(Val.is_o(v), self.st.sel(self.heap.get('cls'), Val.ref(v)) == V.SET_CID))
 
     def spec_instance_of(self, node):
         v = self.to_val(self.ev(node.args[0]))
         c = self.ev(node.args[1])
         if not isinstance(c, PyConst) or not isinstance(c.obj, type):
             raise Unsupported('instance_of needs a class constant')
-        return Val.b(z3.And(Val.is_o(v), V.subclass(z3.Select(self.heap.get('cls'), Val.ref(v)),
+        return Val.b(z3.And(Val.is_o(v), V.subclass(self.st.sel(self.heap.get('cls'), Val.ref(v)),
                                                     z3.IntVal(V.cid_of(c.obj)))))
 
     def spec_exact_instance(self, node):
         v = self.to_val(self.ev(node.args[0]))
         c = self.ev(node.args[1])
-        return Val.b(z3.And(Val.is_o(v), z3.Select(self.heap.get('cls'), Val.ref(v)) == z3.IntVal(V.cid_of(c.obj))))
+        return Val.b(z3.And(Val.is_o(v), self.st.sel(self.heap.get('cls'), Val.ref(v)) == z3.IntVal(V.cid_of(c.obj))))
 
     def spec_fresh(self, node):
         """object did not exist in the pre-state"""
@@ -1473,37 +1484,37 @@ class Interp:
     def spec_has_key(self, node):
         d = self.to_val(self.ev(node.args[0]))
         k = self.to_val(self.ev(node.args[1]))
-        return Val.b(z3.Select(z3.Select(self.heap.get('dmap'), Val.ref(d)), k) != V.ABSENT)
+        return Val.b(z3.Select(self.st.sel(self.heap.get('dmap'), Val.ref(d)), k) != V.ABSENT)
 
     def spec_at(self, node):
         d = self.to_val(self.ev(node.args[0]))
         k = self.to_val(self.ev(node.args[1]))
-        return z3.Select(z3.Select(self.heap.get('dmap'), Val.ref(d)), k)
+        return z3.Select(self.st.sel(self.heap.get('dmap'), Val.ref(d)), k)
 
     def spec_get(self, node):
         d = self.to_val(self.ev(node.args[0]))
         k = self.to_val(self.ev(node.args[1]))
         dflt = self.to_val(self.ev(node.args[2])) if len(node.args) > 2 else V.NONE
-        v = z3.Select(z3.Select(self.heap.get('dmap'), Val.ref(d)), k)
+        v = z3.Select(self.st.sel(self.heap.get('dmap'), Val.ref(d)), k)
         return z3.If(v == V.ABSENT, dflt, v)
 
     def spec_nitems(self, node):
         v = self.to_val(self.ev(node.args[0]))
-        return Val.i(z3.Length(z3.Select(self.heap.get('list'), Val.ref(v))))
+        return Val.i(z3.Length(self.st.sel(self.heap.get('list'), Val.ref(v))))
 
     def spec_item(self, node):
         v = self.to_val(self.ev(node.args[0]))
         k = num_int(self.to_val(self.ev(node.args[1])))
-        return z3.Select(self.heap.get('list'), Val.ref(v))[k]
+        return self.st.sel(self.heap.get('list'), Val.ref(v))[k]
 
     def spec_nkeys(self, node):
         v = self.to_val(self.ev(node.args[0]))
-        return Val.i(z3.Length(z3.Select(self.heap.get('dkeys'), Val.ref(v))))
+        return Val.i(z3.Length(self.st.sel(self.heap.get('dkeys'), Val.ref(v))))
 
     def spec_key_at(self, node):
         v = self.to_val(self.ev(node.args[0]))
         k = num_int(self.to_val(self.ev(node.args[1])))
-        return z3.Select(self.heap.get('dkeys'), Val.ref(v))[k]
+        return self.st.sel(self.heap.get('dkeys'), Val.ref(v))[k]
 
     def spec_ufun_seq(self, node):
         name = node.args[0].value
@@ -1609,12 +1620,12 @@ class Interp:
         """the items of a list, or the empty sequence when `flag` is truthy (set_input's clear)"""
         flag = self.truth(self.ev(node.args[0]))
         lst = self.to_val(self.ev(node.args[1]))
-        return SeqV(z3.If(flag, z3.Empty(SeqVal), z3.Select(self.heap.get('list'), Val.ref(lst))))
+        return SeqV(z3.If(flag, z3.Empty(SeqVal), self.st.sel(self.heap.get('list'), Val.ref(lst))))
 
     def spec_elements(self, node):
         """elements of a list or tuple value"""
         v = self.to_val(self.ev(node.args[0]))
-        return SeqV(z3.If(Val.is_t(v), Val.tv(v), z3.Select(self.heap.get('list'), Val.ref(v))))
+        return SeqV(z3.If(Val.is_t(v), Val.tv(v), self.st.sel(self.heap.get('list'), Val.ref(v))))
 
     def spec_comp_map(self, node):
         """comp_map(lambda x: f(x), seq): the same term the engine gives to [f(x) for x in seq]"""
@@ -1627,6 +1638,20 @@ class Interp:
         if m is None:
             raise Unsupported('comp_map: element expression is not heap-independent')
         return SeqV(m)
+
+    def spec_join(self, node):
+        """join(sep, seq): the same term the engine gives to sep.join(sequence)"""
+        sep = self.to_val(self.ev(node.args[0]))
+        sq = self.ev(node.args[1])
+        return Val.s(V.uf('str_join', V.S, SeqVal, V.S)(Val.sv(sep), sq.seq))
+
+    def spec_prefix(self, node):
+        """prefix(seq, n): the first n elements (what a slice [:n] yields)"""
+        sq = self.ev(node.args[0])
+        n = num_int(self.to_val(self.ev(node.args[1])))
+        ln = z3.Length(sq.seq)
+        b = z3.If(n < 0, z3.If(n + ln < 0, z3.IntVal(0), n + ln), z3.If(n > ln, ln, n))
+        return SeqV(z3.Extract(sq.seq, z3.IntVal(0), z3.If(b < 0, z3.IntVal(0), b)))
 
     def spec_lower(self, node):
         v = self.to_val(self.ev(node.args[0]))
